@@ -51,7 +51,7 @@ def snapshot(m):
     if isinstance(m, impl.OrderedMultiDict):
         inv = C.invariant(m)
         return ("C", type(m).__name__, id(m), inv,
-                tuple((k, snapshot(v)) for k, v in getattr(m, "_OrderedMultiDict__items")))
+                tuple((k, snapshot(v)) for k, v in C._items_of(m)))
     if type(m) is dict:
         return ("D", "dict", id(m), None, tuple((k, snapshot(v)) for k, v in m.items()))
     if isinstance(m, list):
